@@ -375,31 +375,63 @@ theorem inv_init (k : Conf) : Inv (init k) := by
   · intro r hr; simp [init] at hr
   · intro r hr; simp [init] at hr
 
-theorem inv_doOffer {c : Cfg} {m : Mem} (h : Inv c) (hl : LiveInv c m .idle) (r : Req) : Inv (doOffer c m r) := by
-  unfold doOffer
+theorem LiveInv.waiting {c : Cfg} {m : Mem} {pc : Pc} (hl : LiveInv c m pc) (w : List Req) :
+    LiveInv c { m with waiting := w } pc :=
+  ⟨hl.ri, hl.wi, hl.outst, by
+    have := hl.pc
+    cases pc <;> exact this⟩
+
+theorem inv_doPut {c : Cfg} {m : Mem} (h : Inv c) (hl : LiveInv c m .idle) (r : Req) : Inv (doPut c m r) := by
+  unfold doPut
   dsimp only
-  by_cases hfull : m.size + c.k.sizeof r > c.k.cap
-  · rw [if_pos hfull]; exact h.of_eq rfl rfl rfl rfl rfl
-  · rw [if_neg hfull]
-    have hw := hl.wi
-    refine Inv.mkLive rfl ?_ ?_ h.fin ⟨?_, ?_, ?_, ?_⟩ <;> dsimp only <;> rw [hw]
-    · exact h.st.putB r
-    · intro q hq
-      rw [List.mem_cons] at hq
-      rcases hq with rfl | hq
-      · right; exact Recoverable.putB_new h.st q
-      · rcases h.main q hq with hf | hrec
-        · left; exact hf
-        · right; exact hrec.putB_old h.st r
-    · rw [putB_R h.st.opt]; exact hl.ri
-    · simp
-    · intro p hp
-      obtain ⟨h1, h2, h3⟩ := hl.outst p hp
-      have hle := h.st.le
-      refine ⟨?_, by rw [putB_R h.st.opt]; exact h2, h3⟩
-      rw [putB_items, upd_ne _ _ (by omega)]; exact h1
-    · have : m.cdi = c.st.di := hl.pc
-      split <;> exact this
+  have hw := hl.wi
+  refine Inv.mkLive rfl ?_ ?_ h.fin ⟨?_, ?_, ?_, ?_⟩ <;> dsimp only <;> rw [hw]
+  · exact h.st.putB r
+  · intro q hq
+    rw [List.mem_cons] at hq
+    rcases hq with rfl | hq
+    · right; exact Recoverable.putB_new h.st q
+    · rcases h.main q hq with hf | hrec
+      · left; exact hf
+      · right; exact hrec.putB_old h.st r
+  · rw [putB_R h.st.opt]; exact hl.ri
+  · simp
+  · intro p hp
+    obtain ⟨h1, h2, h3⟩ := hl.outst p hp
+    have hle := h.st.le
+    refine ⟨?_, by rw [putB_R h.st.opt]; exact h2, h3⟩
+    rw [putB_items, upd_ne _ _ (by omega)]; exact h1
+  · have : m.cdi = c.st.di := hl.pc
+    split <;> exact this
+
+theorem inv_doOfferFull {c : Cfg} {m : Mem} (h : Inv c) (hph : c.ph = .live m .idle) (r : Req) :
+    Inv (doOfferFull c m r) := by
+  have hl := h.live m _ hph
+  unfold doOfferFull
+  split
+  · exact h.of_eq rfl rfl rfl rfl rfl
+  · split
+    · exact h.of_eq rfl rfl rfl rfl rfl
+    · exact Inv.mkLive rfl h.st h.main h.fin ((hl.waiting _).of_eq rfl rfl)
+
+theorem inv_doOffer {c : Cfg} {m : Mem} (h : Inv c) (hph : c.ph = .live m .idle) (r : Req) : Inv (doOffer c m r) := by
+  unfold doOffer
+  split
+  · exact inv_doOfferFull h hph r
+  · exact inv_doPut h (h.live m _ hph) r
+
+theorem inv_doWake {c : Cfg} {m : Mem} (h : Inv c) (hph : c.ph = .live m .idle) : Inv (doWake c m) := by
+  have hl := h.live m _ hph
+  unfold doWake
+  split
+  · exact h
+  · split
+    · exact Inv.mkLive rfl h.st h.main h.fin ((hl.waiting _).of_eq rfl rfl)
+    · exact inv_doPut h (hl.waiting _) _
+
+theorem inv_doCancel {c : Cfg} {m : Mem} (h : Inv c) (hph : c.ph = .live m .idle) (j : Nat) : Inv (doCancel c m j) := by
+  have hl := h.live m _ hph
+  exact Inv.mkLive rfl h.st h.main h.fin ((hl.waiting _).of_eq rfl rfl)
 
 end OtelVerif.C01
 
@@ -666,7 +698,7 @@ theorem inv_fire {c : Cfg} (h : Inv c) (l : Label) : Inv (fire c l) := by
     · exact h
   | offer r =>
     simp only [fire]; split
-    · next m heq => exact inv_doOffer h (h.live m _ heq) r
+    · next m heq => exact inv_doOffer h heq r
     · exact h
   | read =>
     simp only [fire]; split
@@ -679,6 +711,14 @@ theorem inv_fire {c : Cfg} (h : Inv c) (l : Label) : Inv (fire c l) := by
   | shutdown =>
     simp only [fire]; split
     · next m heq => exact inv_doShutdown h (h.live m _ heq)
+    · exact h
+  | wake =>
+    simp only [fire]; split
+    · next m heq => exact inv_doWake h heq
+    · exact h
+  | cancel j =>
+    simp only [fire]; split
+    · next m heq => exact inv_doCancel h heq j
     · exact h
 
 theorem inv_foldl (ls : List Label) : ∀ c, Inv c → Inv (ls.foldl fire c) := by
